@@ -31,4 +31,11 @@ ExtendedExcludes ==
   decl # "none" => (IF s1 \in {"", decl} THEN R(s1) = [r |-> "var", key |-> <<sc, "A", decl>>] ELSE R(s1).r = "reject")
 \* a name used in the SUB is local unless shared / constant
 LocalByDefault == (decl = "none" /\ sc = "sub") => R(s1).key[1] = "sub"
+\* what a name denotes does not depend on WHERE it is used: as an item of PRINT or as an argument of a call (statement parg),
+\* for variables, declared names and the names of FUNCTIONs alike
+StF(fn) == St @@ [alias |-> Empty, fn |-> fn]
+Same(fn) == LET a == Stmt(StF(fn), sc, [k |-> "print", b |-> "A", c |-> A, sfx |-> s1])
+                b == Stmt(StF(fn), sc, [k |-> "parg", b |-> "A", c |-> A, sfx |-> s1])
+            IN a.out = b.out /\ a.verdict = b.verdict /\ a.vars = b.vars
+UseSiteIndifferent == Same(Empty) /\ (s2 # "" => Same("A" :> [b |-> "A", t |-> s2, id |-> 4]))
 =============================================================================
